@@ -38,7 +38,8 @@
         peek_claim <allow|deny> <answer>     same legality checks; only anyone_waiting is written
         release <result> aw=<b> tt=<b> c2=<b>   the entry is removed here (before the dg lines the
               release triggers); the three flags are compared with the model's entry
-        release_self <to_transferred|release>   to_transferred: owner:=Transferred, claimed_twice:=false;
+        release_self <to_transferred|release>   to_transferred: owner:=Transferred, claimed_twice:=false,
+              anyone_waiting:=false (since salsa 451fce7; the dg unblock line of the waiters follows);
               release: marker (the following `release` line removes the entry)
         release_panicking <Panicked|Cancelled>  marker
         mark_as_transfer_target <T:t<N>|X|none> anyone_waiting:=true, is_transfer_target:=true on <key>;
@@ -86,9 +87,21 @@
     empty map = `E{}` etc.
   SYNC (dump only)  `S{5:0=T1:101;6:0=X:110}`: owner `T<n>`|`X`, then anyone_waiting, is_transfer_target,
     claimed_twice as bits; sorted by key.
-  INV: decidable W1 (blocked iff in exactly one dependents list), W2 (edges acyclic), W4 (transferred
-    is a forest and transferred_dependents its inverse), W5 (pending result ⇒ not blocked), evaluated on
-    the state after every applied dg/op line.
+  INV: decidable W1 (blocked iff in exactly one dependents list), W2 (edges acyclic), W3 (every dependent
+    of a key points at the key's owner: `Thread(u)` ⇒ u — while a transferred key is re-claimed
+    (`claimed_twice`) also the resolved owner of its `transferred` chain; `Transferred` ⇒ the thread
+    `thread_id_of_transferred_query` resolves to, and the key still has its `transferred` entry; no sync
+    entry ⇒ no dependents), W4 (transferred is a forest and transferred_dependents its inverse), W5
+    (pending result ⇒ not blocked), evaluated on the state after every applied dg/op line.
+    W3 is the invariant the pre-451fce7 `release_self` violated (stale edge to the re-claiming thread;
+    corpus/DG/kf-stale-edge-prefix.ops, recorded deadlock of corpus/C18).  Because a release / transfer /
+    hand-back is a sync line followed by the graph line(s) of the same thread, W3 exempts a key from its
+    `sync release` (with waiters) / `sync transfer` / `sync release_self … to_transferred` (with waiters)
+    line until the NEXT dg or sync line of that thread has been applied (`undo_transfer_lock` keeps the
+    exemption: it is the first of up to three graph lines of a release).  So if the expected graph
+    operation does not follow (the old `release_self`), the violation is reported at that next line.
+    `sync release_self … to_transferred` clears `anyone_waiting` (it is followed by
+    `dg 0 unblock_runtimes_blocked_on <key> Completed` when the flag was set).
 -/
 import SalsaVerif.Drive.Common
 import SalsaVerif.Model.SyncDG
@@ -99,8 +112,11 @@ open SalsaVerif.Model.SyncDG
 structure DState where
   st : State
   keys : Array (Nat × Nat)
+  /-- (key, thread): the sync-table half of a release / transfer / hand-back of `key` by `thread` has
+      been replayed, its graph half is the thread's next dg line; W3 is not evaluated on `key` meanwhile -/
+  pending : List (Nat × Nat) := []
 
-def dinit : DState := { st := init, keys := #[] }
+def dinit : DState := { st := init, keys := #[], pending := [] }
 
 def nat? (s : String) : Option Nat := if s.isEmpty then none else s.toNat?
 
@@ -171,8 +187,9 @@ def fmtSync (d : DState) : String :=
   braces "S" ((sortedKeys d).filterMap fun k => (d.st.sync k).map fun st =>
     s!"{fmtK d k}={fmtOwner st.owner}:{fmtB st.anyoneWaiting}{fmtB st.isTransferTarget}{fmtB st.claimedTwice}")
 
-def invReport (s : State) : String :=
+def invReport (s : State) (skip : List Nat := []) : String :=
   let bad := (if checkW1 s then [] else ["W1"]) ++ (if checkW2 s then [] else ["W2"])
+    ++ (if checkW3 s skip then [] else ["W3"])
     ++ (if checkW4 s then [] else ["W4"]) ++ (if checkW5 s then [] else ["W5"])
   if bad.isEmpty then "inv=ok" else "inv=FAIL:" ++ ",".intercalate bad
 
@@ -298,6 +315,8 @@ def applyDgCheck (d : DState) (op : String) (me : Nat) (args : List String) : Op
 def setSync (d : DState) (k : Nat) (v : Option SyncState) : DState :=
   withSt d { (touch d.st k) with sync := upd d.st.sync k v }
 
+def addPending (d : DState) (k me : Nat) : DState := { d with pending := (k, me) :: d.pending }
+
 def flag? (pre s : String) : Option Bool :=
   if s = pre ++ "0" then some false else if s = pre ++ "1" then some true else none
 
@@ -341,6 +360,7 @@ def applySync (d : DState) (op : String) (me k : Nat) (args : List String) : Out
       | none => some (.notEnabled "sync:release-without-entry")
       | some st =>
         let d' := setSync d k none
+        let d' := if st.anyoneWaiting then addPending d' k me else d'
         if st.anyoneWaiting = aw ∧ st.isTransferTarget = tt ∧ st.claimedTwice = c2 then some (.sync d' none)
         else some (.sync d' (some s!"aw={fmtB st.anyoneWaiting},tt={fmtB st.isTransferTarget},c2={fmtB st.claimedTwice}"))
     | "release_self", [what] =>
@@ -348,7 +368,9 @@ def applySync (d : DState) (op : String) (me k : Nat) (args : List String) : Out
       | none => some (.notEnabled "sync:release_self-without-entry")
       | some st =>
         if what = "to_transferred" then
-          if st.claimedTwice then some (.sync (setSync d k (some { st with claimedTwice := false, owner := .transferred })) none)
+          if st.claimedTwice then
+            let d' := setSync d k (some { st with claimedTwice := false, owner := .transferred, anyoneWaiting := false })
+            some (.sync (if st.anyoneWaiting then addPending d' k me else d') none)
           else some (.notEnabled "sync:to_transferred-needs-claimed-twice")
         else if what = "release" then
           if st.claimedTwice then some (.sync d (some "to_transferred")) else some (.sync d none)
@@ -369,7 +391,7 @@ def applySync (d : DState) (op : String) (me k : Nat) (args : List String) : Out
       let _ ← keyName? n
       match cur with
       | none => some (.notEnabled "sync:transfer-without-entry")
-      | some st => some (.sync (setSync d k (some { st with owner := .transferred, claimedTwice := false })) none)
+      | some st => some (.sync (addPending (setSync d k (some { st with owner := .transferred, claimedTwice := false })) k me) none)
     | "block_self", [] => some (.sync d none)
     | "transfer_no_target", [n] => do
       let _ ← keyName? n
@@ -432,6 +454,12 @@ def splitDigest (toks : List String) : List String × Option String :=
     (toks.take (n - 5), some (" ".intercalate (toks.drop (n - 5))))
   else (toks, none)
 
+/-- The thread `me` logs its next line: its in-flight markers expire (the graph half of the operation is
+    this very line — or the marker was wrong and W3 must see the key again).  `undo_transfer_lock` is
+    the first of up to three graph lines of a release and keeps the marker. -/
+def expire (d : DState) (me : Nat) (keep : Bool) : DState :=
+  if keep then d else { d with pending := d.pending.filter (fun p => p.2 != me) }
+
 def handle (d : DState) (line : String) : Out × Option String :=
   match SalsaVerif.Drive.words line with
   | "dg" :: rest =>
@@ -442,6 +470,7 @@ def handle (d : DState) (line : String) : Out × Option String :=
       | some dep, some me =>
         if dep > 0 then (.skip, none)
         else
+          let d := expire d me (op == "undo_transfer_lock")
           match applyDgCheck d op me args with
           | some o => (o, want)
           | none => (applyDg d op args, want)
@@ -449,7 +478,7 @@ def handle (d : DState) (line : String) : Out × Option String :=
     | _ => (.bad, none)
   | "sync" :: op :: me :: k :: args =>
     match thread? me, key? d k with
-    | some me, some (d, k) => (applySync d op me k args, none)
+    | some me, some (d, k) => (applySync (expire d me false) op me k args, none)
     | _, _ => (.bad, none)
   | "op" :: args => (applyOp d args, none)
   | ["reset"] => (.graph dinit none none, none)
@@ -469,13 +498,13 @@ def step (d : DState) (line : String) : DState × String :=
     | some a =>
       if a.startsWith "MISMATCH:" then (d', "answer-mismatch model=" ++ (a.drop 9).toString)
       else if a.startsWith "PRECOND:" then
-        (d', "client-precondition-violated " ++ dig ++ " " ++ invReport d'.st)
+        (d', "client-precondition-violated " ++ dig ++ " " ++ invReport d'.st (d'.pending.map (·.1)))
       else
         let head := if want.all (· == dig) then "ok " else "digest-mismatch "
-        (d', head ++ dig ++ " ans=" ++ a ++ (extra.map (" " ++ ·)).getD "" ++ " " ++ invReport d'.st)
+        (d', head ++ dig ++ " ans=" ++ a ++ (extra.map (" " ++ ·)).getD "" ++ " " ++ invReport d'.st (d'.pending.map (·.1)))
     | none =>
       let head := if want.all (· == dig) then "ok " else "digest-mismatch "
-      (d', head ++ dig ++ (extra.map (" " ++ ·)).getD "" ++ " " ++ invReport d'.st)
+      (d', head ++ dig ++ (extra.map (" " ++ ·)).getD "" ++ " " ++ invReport d'.st (d'.pending.map (·.1)))
 
 def main : IO Unit := SalsaVerif.Drive.runLoop dinit step
 
